@@ -215,6 +215,18 @@ fn do_all(o: &mut Out, t: &Tab, x: &[u8], tail_rng: &mut Rng) {
     ext.extend(tail_rng.bytes(n));
     let d = real_dec(t, &ext, x.len());
     o.check(d == Dec::Ok(x.to_vec()), "-", &id, || format!("decompress(compress_bug({}) ++ tail) = {:?}", hex(x), d));
+    // the end of the input reads as zero bits (as in the reference): trailing zero bytes may be cut off
+    if x.len() <= 64 {
+        let mut y = cb.clone();
+        while y.last() == Some(&0) {
+            y.pop();
+            let d = real_dec(t, &y, x.len());
+            o.check(d == Dec::Ok(x.to_vec()), "-", &id, || format!("decompress(compress_bug({}) = {} with trailing zero bytes cut to {}) = {:?}", hex(x), hex(&cb), hex(&y), d));
+            if let Some(Some(r)) = ref_dec(t, &y, x.len()) {
+                o.check(d == Dec::Ok(r.clone()), "-", &id, || format!("the reference decodes {} to {} but decompress gives {:?}", hex(&y), hex(&r), d));
+            }
+        }
+    }
     if !x.is_empty() {
         let d = real_dec(t, &c, x.len() - 1);
         o.check(d == Dec::Cap, "-", &id, || format!("decompress(compress({})) with capacity {} = {:?}, expected the capacity error", hex(x), x.len() - 1, d));
